@@ -29,6 +29,7 @@ void harness(void) {
   VP_ASSERT((ab < 0) == (ba > 0) && (ab == 0) == (ba == 0), "mzd_cmp antisymmetric");
   VP_ASSERT(!(ab <= 0 && bc <= 0) || ac <= 0, "mzd_cmp transitive");
   VP_ASSERT(!(ab == 0 && bc == 0) || ac == 0, "mzd_cmp: equality transitive");
+  VP_CANARY();
 #elif defined(H_IS_ZERO)
   VP_PRE(REQ_mzd_is_zero(A));
   int r = mzd_is_zero(A);
@@ -63,6 +64,7 @@ void harness(void) {
   VP_ASSUME(VP_ROWOK(A, in_i) && VP_COLOK(A, in_j) && (in_v == 0 || in_v == 1));
   mzd_write_bit(A, in_i, in_j, in_v);
   VP_ASSERT(mzd_read_bit(A, in_i, in_j) == in_v, "read_bit returns what write_bit wrote");
+  VP_CANARY();
 #else
 #error mode
 #endif
